@@ -238,6 +238,14 @@ def ddn : P String := do
   -- property clauses on the implementation's outputs
   -- (1) row lookup: getId = start of the action's block + parent index, inside [0, getSize)
   let v := v.failIf (ids.length != mIds.length || probs.length != mProbs.length || bpGets.length != sa.length) "DDN missing_values"
+  let injOK := feats.all (fun i =>
+      let size := (iStart.getD i []).getLastD 0
+      let rows := sa.zipIdx.map (fun (p, k) =>
+        let aid := toIndexPartial (g.ps i).agents A p.2
+        ((aid, toIndexPartial ((g.ps i).features.getD aid []) S p.1), ids.getD (i * sa.length + k) 0))
+      rows.all (fun r => decide (r.2 < size)) &&
+      rows.all (fun r => rows.all (fun r' => (r.1 == r'.1) == (r.2 == r'.2))))
+  let v := v.failIf (!injOK) "DDNGraph::getId rows_not_in_bijection_with_parent_assignments"
   -- (2) each joint next state gets the product of its local probabilities
   let n1 := xsS.length
   let prodOK := (sa.zipIdx).all (fun (_, k) => (xsS.zipIdx).all (fun (s1, j) =>
@@ -257,7 +265,7 @@ def eqv : P String := do
   let comp ← P.tok; let kind ← P.tok; let mode ← P.tok; P.bar
   let a ← P.xs; P.bar; let b ← P.xs; P.eof
   let same := a.length == b.length && (a.zip b).all (fun (x, y) => match x, y with
-    | .fin p, .fin q => if mode == "exact" then p == q else closeQ (1 / 1000000000) p q
+    | .fin p, .fin q => if mode == "exact" then p == q else if mode == "loose" then closeQ (1 / 1000) p q else closeQ (1 / 1000000000) p q
     | _, _ => false)
   let v : Verdict := { tag := s!"eq:{comp}" }
   let v := v.failIf (!same) s!"{comp} {kind} a={a.take 12} b={b.take 12}"
